@@ -143,7 +143,10 @@ impl Prop for Order {
         let m = if u.coin(1, 8)? { 0 } else { 1 };
         let a = if m == 0 && u.coin(1, 2)? { Inst { day: if u.coin(1, 2)? { cal::MAX_DAY } else { cal::MIN_DAY }, ns: gen::day_ns(u)? } } else { gen::inst(u, m)? };
         let b = gen::inst_near(u, a, m)?;
-        Ok(PairCase { a, b, oa: gen::offset(u)?, ob: gen::offset(u)? })
+        let oa = gen::offset(u)?;
+        // both operands in the same zone one time in four
+        let ob = if u.coin(1, 4)? { oa } else { gen::offset(u)? };
+        Ok(PairCase { a, b, oa, ob })
     }
     fn check(c: &PairCase, cx: &mut Cx) -> Verdict {
         if !c.a.valid() || !c.b.valid() || c.oa.abs() > 86_399 || c.ob.abs() > 86_399 {
